@@ -41,7 +41,7 @@ type DKind int
 const (
 	HLog     DKind = iota // handler logs ("close", name, err)
 	HRaise                // logs, then error("H"..name, 0)
-	HRaiseT               // logs, then error({})
+	HRaiseT               // logs, declares a to-be-closed variable of its own, then error({})
 	HYield                // logs, yields "H", logs ("resumed", name)
 	VFalse                // local v <close> = false
 	VNil                  // local v <close> = nil
@@ -291,7 +291,8 @@ func (w *writer) ln(f string, a ...interface{}) {
 const (
 	preHLog    = `local function hlog(n) return setmetatable({name = n}, {__close = function(o, e) emit("close", o.name, e) end}) end`
 	preHRaise  = `local function hraise(n) return setmetatable({name = n}, {__close = function(o, e) emit("close", o.name, e) error("H" .. n, 0) end}) end`
-	preHRaiseT = `local function hraiset(n) return setmetatable({name = n}, {__close = function(o, e) emit("close", o.name, e) error({}) end}) end`
+	// (this handler also has a pending to-be-closed variable of its own when it raises)
+	preHRaiseT = `local function hraiset(n) return setmetatable({name = n}, {__close = function(o, e) emit("close", o.name, e) local own <close> = setmetatable({}, {__close = function(_, e2) emit("close-own", n, e2) end}) error({}) end}) end`
 	preHYield  = `local function hyield(n) return setmetatable({name = n}, {__close = function(o, e) emit("close", o.name, e) coroutine.yield("H") emit("resumed", o.name) end}) end`
 	preHSwap   = `local function hswap(n) return setmetatable({name = n}, {__close = function(o, e) emit("old handler", o.name, e) end}) end`
 	preRF      = `local function rf(x) emit("rf", x) return x, "r2" end`
